@@ -5,6 +5,7 @@ use serde_json::{json, Value};
 
 mod c07;
 mod c08;
+mod c20;
 
 fn main() {
     let a: Vec<String> = std::env::args().collect();
@@ -31,6 +32,8 @@ fn run(name: &str, args: &Value) -> Value {
     match name {
         "c07_ws" => c07::ws(args),
         "c07_http" => c07::http(args),
+        "c20_script" => c20::script(args),
+        "c20_tuple" => c20::tuple(args),
         "c08_append" => c08::append(args),
         "c08_response" => c08::response(args),
         other => {
